@@ -7,6 +7,10 @@ BINOPS = {ast.Add: "PAdd", ast.Sub: "PSub", ast.Mult: "PMul", ast.Div: "PDiv", a
 CMPS = {ast.Eq: "Ceq", ast.NotEq: "Cne", ast.Lt: "Clt", ast.LtE: "Cle", ast.Gt: "Cgt", ast.GtE: "Cge"}
 
 
+N_IS_IDENTITY_ON_NUMBERS = [False]
+N_SOURCE = ("def _n(value):\n    if isinstance(value, str) and value.startswith('HASH(\"'):\n        return _e(value)\n    return value")
+
+
 def _dict_of_return(fn):
     """function whose (last) statement is `return {...}[op]` or `return {...}.get(op, default)`"""
     ret = fn.body[-1]
@@ -28,6 +32,10 @@ def pexpr(e, params):
     if isinstance(e, ast.Call) and isinstance(e.func, ast.Name) and len(e.args) == 1 and not e.keywords:
         if e.func.id == "_e":
             return f"(PE {pexpr(e.args[0], params)})"
+        if e.func.id == "_n" and N_IS_IDENTITY_ON_NUMBERS[0]:
+            # _n: HASH("..") text -> its number, everything else unchanged: the identity on the numeric
+            # operands the model ranges over (the definition is compared with N_SOURCE below)
+            return pexpr(e.args[0], params)
         if e.func.id == "int":
             return f"(PInt {pexpr(e.args[0], params)})"
         if e.func.id == "float":
@@ -49,6 +57,12 @@ def pexpr(e, params):
 
 def translate(pkg) -> str:
     tree = parse_file(pkg / "utils.py")
+    N_IS_IDENTITY_ON_NUMBERS[0] = False
+    for n in tree.body:
+        if isinstance(n, ast.FunctionDef) and n.name == "_n":
+            if ast.unparse(n) != N_SOURCE:
+                raise TranslateError("utils._n is not the function the model takes for the identity on numbers:\n" + ast.unparse(n))
+            N_IS_IDENTITY_ON_NUMBERS[0] = True
     suf = _dict_of_return(find_def(tree, "get_comparison_suffix"))
     nsuf = _dict_of_return(find_def(tree, "get_negated_comparison_suffix"))
     suffix = {const_str(k): const_str(v) for k, v in zip(suf.keys, suf.values)}
